@@ -63,7 +63,9 @@ class C04(Prop):
         c = sub_cases(Opts(max_depth=d, reals=True, gauss=True))
         modes = st.tuples(st.sampled_from(F_MODES), st.sampled_from(S_MODES))
         pm = sub_cases(Opts(max_depth=2, reals=True, deltas=True, consts=True, max_names=3))
-        return st.tuples(st.one_of(a, a, b, c, pm), modes).map(lambda t: dict(t[0], fmode=t[1][0], smode=t[1][1]))
+        # tables holding -inf / 0 / negative entries (a selected part may be finite while another part is not)
+        edge = sub_cases(Opts(edge=True, reals=True, max_depth=d, ops_unary=("neg", "abs", "exp", "tanh", "sigmoid"), ops_binary=("add", "mul", "max", "min", "logaddexp", "sub")))
+        return st.tuples(st.one_of(a, a, b, c, pm, edge), modes).map(lambda t: dict(t[0], fmode=t[1][0], smode=t[1][1]))
 
     def describe(self, case):
         s = f"[{case['fmode']}/{case['smode']}] ({show(case['f'])})(" + ", ".join(f"{k}={show_value(v)}" for k, v in case["subs"]) + ")"
